@@ -334,7 +334,8 @@ pub fn run(tier: Tier) -> i32 {
         rep.stats.merge(p);
     }
     // (1b) keys that look like indices ("0", "1"): a member named "0" is not element 0
-    for (k1, k2) in [("a", "0"), ("0", "1")] {
+    // (also names with multi-byte characters and with a blank: offsets inside a segment are bytes)
+    for (k1, k2) in [("a", "0"), ("0", "1"), ("é", "a"), ("日本", "é"), ("a b", "b")] {
         let docs_n = documents_k(3, if th { 6 } else { 5 }, k1, k2);
         let ps_n = paths_k(3, k1, k2);
         rep.stats.count("documents_with_numeric_keys", docs_n.len() as u64);
